@@ -38,7 +38,7 @@ inductive TC where
 def typeCheckAux (required : Ty) : List Value → Bool → Bool → Res TC
   | [], hasDyn, hasUnk => .ok (if hasDyn then .dynamic else if hasUnk then .unknown else .none)
   | v :: vs, hasDyn, hasUnk =>
-    if v.ty == .dyn then typeCheckAux required vs true hasUnk
+    if v.ty.isDyn then typeCheckAux required vs true hasUnk
     else if !(v.ty.equals required) then .panic "type mismatch"
     else typeCheckAux required vs hasDyn (hasUnk || v.isUnk)
 
@@ -83,7 +83,7 @@ def isCollection : Ty → Bool
 def range (v : Value) : Res VRange :=
   if v.isMarked then .panic "Range on marked value" else
   match v.v with
-  | .unk r => .ok ⟨v.ty, if r == .unref then .nullable .u else r⟩
+  | .unk r => .ok ⟨v.ty, match r with | .unref => .nullable .u | r => r⟩
   | .null => .ok ⟨v.ty, .nullable .t⟩
   | p =>
     match v.ty with
@@ -101,15 +101,15 @@ def range (v : Value) : Res VRange :=
 
 /-- `NumberLowerBound`: `none` stands for `UnknownVal(Number)` -/
 def VRange.numLower (r : VRange) : Res (Option Num) :=
-  if r.ty == .dyn then .ok none
-  else if r.ty != .number then .panic "NumberLowerBound on non-number"
+  if r.ty.isDyn then .ok none
+  else if !r.ty.isNumber then .panic "NumberLowerBound on non-number"
   else match r.raw with
     | .num _ (some b) _ => .ok (some b.v)
     | _ => .ok (some (.inf true))
 
 def VRange.numUpper (r : VRange) : Res (Option Num) :=
-  if r.ty == .dyn then .ok none
-  else if r.ty != .number then .panic "NumberUpperBound on non-number"
+  if r.ty.isDyn then .ok none
+  else if !r.ty.isNumber then .panic "NumberUpperBound on non-number"
   else match r.raw with
     | .num _ _ (some b) => .ok (some b.v)
     | _ => .ok (some (.inf false))
@@ -117,20 +117,20 @@ def VRange.numUpper (r : VRange) : Res (Option Num) :=
 def VRange.numLowerB (r : VRange) : Option Bound :=
   match r.raw with
   | .num _ (some b) _ => some b
-  | _ => some ⟨.inf true, false⟩
+  | _ => some ⟨.inf true, true⟩
 def VRange.numUpperB (r : VRange) : Option Bound :=
   match r.raw with
   | .num _ _ (some b) => some b
-  | _ => some ⟨.inf false, false⟩
+  | _ => some ⟨.inf false, true⟩
 
 def VRange.lenLower (r : VRange) : Res Int :=
-  if r.ty == .dyn then .ok 0
+  if r.ty.isDyn then .ok 0
   else if !isCollection r.ty then .panic "LengthLowerBound on non-collection"
   else match r.raw with
     | .coll _ lo _ => .ok lo
     | _ => .ok 0
 def VRange.lenUpper (r : VRange) : Res Int :=
-  if r.ty == .dyn then .ok maxInt
+  if r.ty.isDyn then .ok maxInt
   else if !isCollection r.ty then .panic "LengthUpperBound on non-collection"
   else match r.raw with
     | .coll _ _ hi => .ok hi
@@ -154,7 +154,7 @@ every value of `a` is above every value of `b` -/
 def rangeLess (a b : Value) : Res (Option Bool) := do
   let ra ← a.range
   let rb ← b.range
-  if ra.ty == .number && rb.ty == .number then
+  if ra.ty.isNumber && rb.ty.isNumber then
     let aMax ← ra.numUpper
     let bMin ← rb.numLower
     let aMin ← ra.numLower
@@ -188,7 +188,7 @@ def greaterThanU (a b : Value) : Res Value := do
     -- GreaterThan checks "min > otherMax → True" first, then "max < otherMin → False"
     let ra ← a.range
     let rb ← b.range
-    if ra.ty == .number && rb.ty == .number then
+    if ra.ty.isNumber && rb.ty.isNumber then
       let aMin ← ra.numLower
       let bMax ← rb.numUpper
       let aMax ← ra.numUpper
@@ -217,7 +217,7 @@ def notU (a : Value) : Res Value := do
 def «not» := unMarks notU
 
 /-- `val == False`: struct equality of (type, payload) with an untyped bool payload -/
-def isLitBool (v : Value) (b : Bool) : Bool := v.ty == .bool && (match v.v with | .b x => x == b | _ => false)
+def isLitBool (v : Value) (b : Bool) : Bool := v.ty.isBool && (match v.v with | .b x => x == b | _ => false)
 
 def andU (a b : Value) : Res Value := do
   match ← typeCheck .bool [a, b] with
@@ -244,7 +244,7 @@ def includes (r : VRange) (v : Value) : Res (Option Bool) :=
   else if r.raw.nullness == .f && v.isNull then .ok (some false)
   else if v.isNull then .ok (some true)
   else if Ty.conformErrs r.ty v.ty != 0 then .ok (some false)
-  else if v.ty == .dyn then .ok none
+  else if v.ty.isDyn then .ok none
   else match r.raw with
     | .str _ p =>
       match v.v with
@@ -267,8 +267,8 @@ def includes (r : VRange) (v : Value) : Res (Option Bool) :=
     | .num _ lo hi =>
       match v.v with
       | .n x =>
-        let lob := (lo.getD ⟨.inf true, false⟩)
-        let hib := (hi.getD ⟨.inf false, false⟩)
+        let lob := (lo.getD ⟨.inf true, true⟩)
+        let hib := (hi.getD ⟨.inf false, true⟩)
         let minOk := if lob.incl then numGE x lob.v else Num.cmp x lob.v > 0
         let maxOk := if hib.incl then numLE x hib.v else Num.cmp x hib.v < 0
         .ok (if !minOk || !maxOk then some false else none)
